@@ -853,9 +853,15 @@ htp_status_t htp_connp_RES_HEADERS(htp_connp_t *connp) {
                 endwithcr = 1;
             } else {
                 // connp->out_next_byte == LF
+                // Was this LF preceded by a CR that ended the previous data chunk?
+                // If so, it is the second half of a CRLF, not the start of LF-CR.
+                int crlf_split = (connp->out_current_read_offset == 1) && (connp->out_buf != NULL) &&
+                        (connp->out_buf_size > 0) && (connp->out_buf[connp->out_buf_size - 1] == CR);
                 OUT_PEEK_NEXT(connp);
                 lfcrending = 0;
-                if (connp->out_next_byte == CR) {
+                if (crlf_split) {
+                    endwithcr = 1;
+                } else if (connp->out_next_byte == CR) {
                     // hanldes LF-CR sequence as end of line
                     HTP_VERIF_TP(connp, connp->out_tx, "res_hdr_lfcr");
                     OUT_COPY_BYTE_OR_RETURN(connp);
